@@ -242,7 +242,13 @@ func (p *Parser) WrapUntilTag(names ...string) (*NodeWrapper, *Parser, *Error) {
 						if p.Match(TokenSymbol, "%}") != nil {
 							// Okay, end the wrapping here
 							wrapper.Endtag = tagIdent.Val
-							return wrapper, newParser(p.template.name, tagArgs, p.template), nil
+							argParser := newParser(p.template.name, tagArgs, p.template)
+							if len(tagArgs) == 0 {
+								// like parseTagElement for the opening tag: an argument parser without
+								// tokens reports its errors at the tag's name
+								argParser.lastToken = tagIdent
+							}
+							return wrapper, argParser, nil
 						}
 						t := p.Current()
 						p.Consume()
